@@ -287,6 +287,9 @@ func checkC09(w *Worker) {
 			c := appCase{Args: []string{"lint", "file.yaml"}, Files: map[string]string{"file.yaml": full}}
 			r := runApp(c)
 			x.Obs(r.Key())
+			x.w.binMustAgree(x, c, r, "C09|lint")
+			cs := appCase{Args: []string{"lint", "--silent", "file.yaml"}, Files: c.Files}
+			x.w.binMustAgree(x, cs, runApp(cs), "C09|lint --silent")
 			got := splitLines(r.Stdout)
 			ok := len(got) == len(nums)
 			for i := 0; ok && i < len(got); i++ {
@@ -310,6 +313,7 @@ func checkC09(w *Worker) {
 			r := runApp(c)
 			x.Obs(fmt.Sprint(r.Failed, r.Err))
 			name := strings.Join(cmd, " ")
+			x.w.binMustAgree(x, c, r, "C09|"+[]string{"book", "log"}[role]+"|"+name) // status and message as main() produces them
 			if r.Panic != "" || !r.Failed || !quotes(r.Err, raws[0], nums[0]) {
 				x.Violate("C09|"+[]string{"book", "log"}[role]+"|"+name+"|long-file|wrong-error", fmt.Sprintf("`%s` on a %d-line %s with the first malformed line %q at line %d: failed=%v error %q panic %q", name, line, []string{"book", "log"}[role], raws[0], nums[0], r.Failed, r.Err, firstLine(r.Panic)), nil)
 				return
